@@ -108,6 +108,19 @@ def rule_flow(ctx):
             continue
         m = ms[0]
         scr = render(strip(m["scrut"]))
+        # every node goes through the arms: no exit of the function before the match on the node (a `nothing to do`
+        # shortcut skips what the arms do besides removing sugar, e.g. the `_ <op> e` rule or the rejection of leftovers)
+        from pathcond import find_path
+
+        pth = find_path(fn["body"], m) or []
+        early = []
+        for parent, _slot, child in pth:
+            if parent["k"] == "Block":
+                for st_ in parent["stmts"]:
+                    if st_ is child:
+                        break
+                    early += [x for x in walk(st_) if x["k"] == "Return"]
+        ctx.check(R, "%s/no-shortcut-before-the-arms" % fname, not early, "%d `return` before the match on the node" % len(early), site(SSR, early[0]) if early else site(SSR, fn))
         self_name = "expr" if not is_stmt else None
         seen = set()
         for arm in m["arms"]:
